@@ -229,7 +229,38 @@ def rule_d(ctx, cr):
               "codegen errors get the number of the line being compiled")
     ll = cr.need_fn("mach::listing::Listing::list_line")
     cl = cr.closures_of(ll.path)
-    okl = any(c2.calls_to("lang::error::Error::line_number") and c2.calls_to("lang::error::Error::column")
-              for c2 in cl)
+    okl = any(c2.calls_to("lang::error::Error::line_number") for c2 in cl) and \
+        any(c2.calls_to("lang::error::Error::column") for c2 in cl)
     ctx.check(okl, "C19.d", "list_line/columns-by-line-number", ll.span,
               "a listed line is decorated with the columns of the errors of that line")
+    # ... of that line: the column is taken where the error's line number EQUALS the listed one
+    for c2 in cl:
+        # filter(|e| e.line_number() == n) form: the closure returns the comparison itself
+        if c2.calls_to("lang::error::Error::line_number") and \
+                not c2.calls_to("lang::error::Error::column"):
+            for cmpc in c2.calls_matching(r"PartialEq[^()]*::(eq|ne)$"):
+                ctx.check(cmpc.name.endswith("::eq"), "C19.d", "list_line/columns-of-equal-line",
+                          cmpc.span, "errors are filtered by line number equality",
+                          "the listed line is decorated with the columns of the errors of every "
+                          "OTHER line: the underline shows under lines that have no error")
+    for c2 in cl:
+        for cc in c2.calls_to("lang::error::Error::column"):
+            pol = None
+            for c in c2.conds_at(cc.bb):
+                s = str(c[1])
+                if c[0] == "eq" and "Error::line_number" in s:
+                    if re.match(r"^call:[^()]*PartialEq[^()]*::eq\(", s):
+                        pol = c[2] is True
+                    elif re.match(r"^call:[^()]*PartialEq[^()]*::ne\(", s):
+                        pol = c[2] is False
+                    elif re.match(r"^\(.* Eq .*\)$", s):
+                        pol = c[2] is True
+                    elif re.match(r"^\(.* Ne .*\)$", s):
+                        pol = c[2] is False
+            if pol is None:
+                ctx.notes.append("list_line: column taken under no recognisable line-number test")
+                continue
+            ctx.check(pol, "C19.d", "list_line/columns-of-equal-line", cc.span,
+                      "the column is used when the error's line number equals the listed line's",
+                      "the listed line is decorated with the columns of the errors of every "
+                      "OTHER line: the underline shows under lines that have no error")
